@@ -64,6 +64,20 @@ func siblingOf(r *detsim.Rand, p *Plan, e Entry, kind string) Entry {
 	return e
 }
 
+// companions returns the extra entries a bad entry needs around it: the non-Go sibling a //line directive names
+// (short text in one variant, a long annotated Go-like text in the other).
+func companions(r *detsim.Rand, e *Entry) []Entry {
+	if e.File == nil || e.File.LineDir == "" {
+		return nil
+	}
+	name := e.Name + ".tmpl"
+	e.File.LineDir = name
+	if r.Chance(1, 2) {
+		return []Entry{{Name: name, Kind: KRaw, Raw: "short template\n"}}
+	}
+	return []Entry{{Name: name, Kind: KText, File: GenHealthy(r, "pb", true)}}
+}
+
 // faultEntry builds the bad entry of a kind at a position.
 func faultEntry(r *detsim.Rand, kind, pos string, i int) Entry {
 	name := nameAt(pos, i)
@@ -128,13 +142,17 @@ func SystematicC19(seed uint64) []*Plan {
 					}
 					bad := faultEntry(r, k, pos, 0)
 					bad = siblingOf(r, p, bad, k)
+					comp := companions(r, &bad)
 					p.Entries = append(p.Entries, bad)
+					p.Entries = append(p.Entries, comp...)
 					if two == 1 {
 						k2 := kinds[(ki+1+n%5)%len(kinds)]
 						pos2 := poss[(n+1)%3]
 						b2 := faultEntry(r, k2, pos2, 1)
 						b2 = siblingOf(r, p, b2, k2)
+						comp2 := companions(r, &b2)
 						p.Entries = append(p.Entries, b2)
+						p.Entries = append(p.Entries, comp2...)
 						p.Case += "+" + k2 + "@" + pos2
 					}
 					switch mode {
@@ -182,6 +200,10 @@ func GenC19(r *detsim.Rand) *Plan {
 		if r.Chance(2, 5) {
 			k := kinds[r.Intn(len(kinds))]
 			e = siblingOf(r, p, faultEntry(r, k, pos, i), k)
+			for _, c := range companions(r, &e) {
+				p.Entries = append(p.Entries, c)
+				names = append(names, c.Name)
+			}
 		} else {
 			e = healthyEntry(r, nameAt(pos, i), r.Chance(4, 5))
 		}
